@@ -178,3 +178,9 @@ ISUNSPENDABLE = {
     "rules": [R("method-head:CScript::IsUnspendable", r"bool IsUnspendable\(\) const", "bool CScript_IsUnspendable(const ByteVec* self)"),
               R("member:size()", r"(?<![\w.>])size\(\)", "self->size", False), R("member:*begin()", r"\*begin\(\)", "self->data[0]", False)],
 }
+
+FUNCS = [ISFINAL, CALCSEQ, EVALSEQ, SEQLOCKS, HAVEINPUTS, GETVALUEOUT, CHECKTXINPUTS]
+NATIVE = {"src": "../txverify_replay.cpp", "c_src": "../txverify_native_slices.c", "c_lang": "c++",
+          "repo_sources": ["src/consensus/tx_verify.cpp", "src/consensus/tx_check.cpp", "src/coins.cpp", "src/primitives/transaction.cpp"],
+          "libs": ["libbitcoin_common.a", "libbitcoin_consensus.a", "libbitcoin_util.a", "libbitcoin_clientversion.a", "libbitcoin_crypto.a", "/repo/_build/src/secp256k1/lib/libsecp256k1.a"],
+          "diff_n_quick": 20000, "diff_n_thorough": 400000}
